@@ -545,6 +545,9 @@ def construct(em, n, ii, rec):
         t = em.ctype_of(qt(n))
         em.lowerings['M-array(default-initialised std::array: arbitrary element values)'] += 1
         return '({ %s; __uninit; })' % em.cdecl(em._strip_top_quals(t), '__uninit')
+    if rec is None and re.match(r'^(const)?chrono::(time_point|duration)<', tn) and len(ii) == 1:
+        em.lowerings['M-chrono(copy of a time point / duration: the tick count)'] += 1
+        return em.E(ii[0])
     if rec is None and re.match(r'^(const)?array<', tn) and len(ii) == 1:
         try:
             same = norm_name(T.type_str(T.strip_quals(T.strip_ref(T.parse(qt(ii[0])))))) == norm_name(T.type_str(T.strip_quals(T.parse(qt(n)))))
